@@ -31,7 +31,7 @@ ASSUMPTIONS = [
     "ties in score between different spans: either may survive, but the same one for every order",
 ]
 BOUNDS = {"quick": "refinement: <= 3 hits from a 30-hit menu, all iteration orders, both modes; filters: <= 3 hits, all permutations",
-          "thorough": "refinement: <= 4 hits from the full 30-hit menu, 5 hits from a 15-hit sub-menu (5 hits: rotations + reversal of the set order)"}
+          "thorough": "refinement: <= 5 hits from the full 30-hit menu, 6 hits from a 15-hit sub-menu (5 and 6 hits: rotations + reversal of the set order)"}
 REQUIRED_BUCKETS = {t: ["refine:schedules", "refine:merged-output", "refine:dropped-input", "refine:equal-start-tie",
                         "overlap:dropped", "filter:dropped"] for t in ("quick", "thorough")}
 LENS = {"A": 40, "B": 100, "regulatorR": 40}
@@ -66,7 +66,7 @@ def menu(tier, size):
                 out.append((profile, start, end, score))
     out.append(("regulatorR", 0, 10, 1))
     out.append(("A", 0, 30, 3))
-    if size >= 5:
+    if size >= 6 or (size >= 5 and tier != "thorough"):
         out = [h for i, h in enumerate(out) if i % 2 == 0]
     return out
 
@@ -268,7 +268,7 @@ def shards(tier):
     out = []
     plans = [(3, False), (3, True)]
     if tier == "thorough":
-        plans += [(4, False), (4, True), (5, False), (5, True)]
+        plans += [(4, False), (4, True), (5, False), (5, True), (6, False), (6, True)]
     for size, mode in plans:
         for chunk in range(N_CHUNKS):
             out.append(["refine", size, mode, chunk, tier])
